@@ -3,13 +3,12 @@ import MythVerif.Proofs.WsQueueTsoBnd
 namespace MythVerif.WsqTso
 open MythVerif.Wsq
 
-set_option maxHeartbeats 4000000 in
 theorem bT_pk1 (s s' : St) (p : Pid) : Inv s → Inv s' → Bnd s → s.tpc p = .pk1 → stepT s p = some s' → Bnd s' := by
   intro h h' hb hpc hs
   have hcfg := h.cfg
   have hview := thief_views s h p
-  have a6 := h'.tp2; have a7 := h'.tk3; have a8 := h'.vk3; have a9 := h.lockT; have a10 := h.lockO
-  have b1 := h.tk2 p; have b2 := h.vk2 p; have b3 := hb.pk2 p; have b4 := hb.pk3 p; have b5 := hb.tops; have b6 := hb.base0
+  have a6 := h'.tp2; have a7 := h'.tk3; have a8 := h'.vk3
+  have b1 := h.tk2 p; have b2 := h.vk2 p; have b3 := hb.pk2 p; have b4 := hb.pk3 p
   have hbufE := h.tbufE p
   have hvb : s.bufT p = [] → viewBase (s.bufT p) s.base = s.base ∧ viewTop (s.bufT p) s.top = s.top := by
     intro h0; rw [h0]; exact ⟨rfl, rfl⟩
@@ -18,20 +17,22 @@ theorem bT_pk1 (s s' : St) (p : Pid) : Inv s → Inv s' → Bnd s → s.tpc p = 
   all_goals (try split at hs)
   all_goals (try simp at hs)
   all_goals (try (first | (subst hs; exact hb) | subst hs))
-  all_goals (cases h; cases hb)
-  all_goals simp only [ownerLocked, carry, resetting, ownerFlight] at *
   all_goals (
+    tso_coreT h []
+    bnd_core hb
     constructor
-    all_goals (try simp only [ownerLocked, carry, resetting, ownerFlight, upd_apply, applySto])
-    all_goals (first | assumption | grind [thiefLocked, mayBuf, notTrans, thiefFlight, popWin, rcOff_bnd, Rc1Shape, Rc2Shape, RcPre, RcShape, InsShape, Pu2Shape, CarryShape] | (intro q; by_cases hqp : q = p <;> simp [hqp] <;> grind [thiefLocked, mayBuf, notTrans, thiefFlight, popWin, rcOff_bnd, Rc1Shape, Rc2Shape, RcPre, RcShape, InsShape, Pu2Shape, CarryShape]) | skip))
+    all_goals (bnd_pick hb; rename_i hold)
+    all_goals (first | exact hold | (
+      (try simp only [upd_apply, applySto] at hold ⊢)
+      first | assumption | (intros; contradiction) | (intro q; if hq : q = p then (subst hq; simp only [if_true]; intros; contradiction) else (simp only [if_neg hq]; exact hold q)) | grind [thiefLocked, mayBuf, notTrans, thiefFlight, popWin, rcOff_bnd, Rc1Shape, Rc2Shape, RcPre, RcShape, InsShape, Pu2Shape, CarryShape] | (intro q; by_cases hqp : q = p <;> simp [hqp] <;> grind [thiefLocked, mayBuf, notTrans, thiefFlight, popWin, rcOff_bnd, Rc1Shape, Rc2Shape, RcPre, RcShape, InsShape, Pu2Shape, CarryShape]) | skip)))
 
-set_option maxHeartbeats 4000000 in
 theorem bT_pk2 (s s' : St) (p : Pid) (b) : Inv s → Inv s' → Bnd s → s.tpc p = .pk2 b → stepT s p = some s' → Bnd s' := by
   intro h h' hb hpc hs
   have hcfg := h.cfg
   have hview := thief_views s h p
-  have a6 := h'.tp2; have a7 := h'.tk3; have a8 := h'.vk3; have a9 := h.lockT; have a10 := h.lockO
-  have b1 := h.tk2 p; have b2 := h.vk2 p; have b3 := hb.pk2 p; have b4 := hb.pk3 p; have b5 := hb.tops; have b6 := hb.base0
+  have hbc := hb.pk2 p
+  have a6 := h'.tp2; have a7 := h'.tk3; have a8 := h'.vk3
+  have b1 := h.tk2 p; have b2 := h.vk2 p; have b3 := hb.pk2 p; have b4 := hb.pk3 p
   have hbufE := h.tbufE p
   have hvb : s.bufT p = [] → viewBase (s.bufT p) s.base = s.base ∧ viewTop (s.bufT p) s.top = s.top := by
     intro h0; rw [h0]; exact ⟨rfl, rfl⟩
@@ -40,20 +41,22 @@ theorem bT_pk2 (s s' : St) (p : Pid) (b) : Inv s → Inv s' → Bnd s → s.tpc 
   all_goals (try split at hs)
   all_goals (try simp at hs)
   all_goals (try (first | (subst hs; exact hb) | subst hs))
-  all_goals (cases h; cases hb)
-  all_goals simp only [ownerLocked, carry, resetting, ownerFlight] at *
   all_goals (
+    tso_coreT h []
+    bnd_core hb
     constructor
-    all_goals (try simp only [ownerLocked, carry, resetting, ownerFlight, upd_apply, applySto])
-    all_goals (first | assumption | grind [thiefLocked, mayBuf, notTrans, thiefFlight, popWin, rcOff_bnd, Rc1Shape, Rc2Shape, RcPre, RcShape, InsShape, Pu2Shape, CarryShape] | (intro q; by_cases hqp : q = p <;> simp [hqp] <;> grind [thiefLocked, mayBuf, notTrans, thiefFlight, popWin, rcOff_bnd, Rc1Shape, Rc2Shape, RcPre, RcShape, InsShape, Pu2Shape, CarryShape]) | skip))
+    all_goals (bnd_pick hb; rename_i hold)
+    all_goals (first | exact hold | (
+      (try simp only [upd_apply, applySto] at hold ⊢)
+      first | assumption | (intros; contradiction) | (intro q; if hq : q = p then (subst hq; simp only [if_true]; intros; contradiction) else (simp only [if_neg hq]; exact hold q)) | grind [thiefLocked, mayBuf, notTrans, thiefFlight, popWin, rcOff_bnd, Rc1Shape, Rc2Shape, RcPre, RcShape, InsShape, Pu2Shape, CarryShape] | (intro q; by_cases hqp : q = p <;> simp [hqp] <;> grind [thiefLocked, mayBuf, notTrans, thiefFlight, popWin, rcOff_bnd, Rc1Shape, Rc2Shape, RcPre, RcShape, InsShape, Pu2Shape, CarryShape]) | skip)))
 
-set_option maxHeartbeats 4000000 in
 theorem bT_pk3 (s s' : St) (p : Pid) (b) : Inv s → Inv s' → Bnd s → s.tpc p = .pk3 b → stepT s p = some s' → Bnd s' := by
   intro h h' hb hpc hs
   have hcfg := h.cfg
   have hview := thief_views s h p
-  have a6 := h'.tp2; have a7 := h'.tk3; have a8 := h'.vk3; have a9 := h.lockT; have a10 := h.lockO
-  have b1 := h.tk2 p; have b2 := h.vk2 p; have b3 := hb.pk2 p; have b4 := hb.pk3 p; have b5 := hb.tops; have b6 := hb.base0
+  have hbc := hb.pk3 p
+  have a6 := h'.tp2; have a7 := h'.tk3; have a8 := h'.vk3
+  have b1 := h.tk2 p; have b2 := h.vk2 p; have b3 := hb.pk2 p; have b4 := hb.pk3 p
   have hbufE := h.tbufE p
   have hvb : s.bufT p = [] → viewBase (s.bufT p) s.base = s.base ∧ viewTop (s.bufT p) s.top = s.top := by
     intro h0; rw [h0]; exact ⟨rfl, rfl⟩
@@ -62,20 +65,21 @@ theorem bT_pk3 (s s' : St) (p : Pid) (b) : Inv s → Inv s' → Bnd s → s.tpc 
   all_goals (try split at hs)
   all_goals (try simp at hs)
   all_goals (try (first | (subst hs; exact hb) | subst hs))
-  all_goals (cases h; cases hb)
-  all_goals simp only [ownerLocked, carry, resetting, ownerFlight] at *
   all_goals (
+    tso_coreT h []
+    bnd_core hb
     constructor
-    all_goals (try simp only [ownerLocked, carry, resetting, ownerFlight, upd_apply, applySto])
-    all_goals (first | assumption | grind [thiefLocked, mayBuf, notTrans, thiefFlight, popWin, rcOff_bnd, Rc1Shape, Rc2Shape, RcPre, RcShape, InsShape, Pu2Shape, CarryShape] | (intro q; by_cases hqp : q = p <;> simp [hqp] <;> grind [thiefLocked, mayBuf, notTrans, thiefFlight, popWin, rcOff_bnd, Rc1Shape, Rc2Shape, RcPre, RcShape, InsShape, Pu2Shape, CarryShape]) | skip))
+    all_goals (bnd_pick hb; rename_i hold)
+    all_goals (first | exact hold | (
+      (try simp only [upd_apply, applySto] at hold ⊢)
+      first | assumption | (intros; contradiction) | (intro q; if hq : q = p then (subst hq; simp only [if_true]; intros; contradiction) else (simp only [if_neg hq]; exact hold q)) | grind [thiefLocked, mayBuf, notTrans, thiefFlight, popWin, rcOff_bnd, Rc1Shape, Rc2Shape, RcPre, RcShape, InsShape, Pu2Shape, CarryShape] | (intro q; by_cases hqp : q = p <;> simp [hqp] <;> grind [thiefLocked, mayBuf, notTrans, thiefFlight, popWin, rcOff_bnd, Rc1Shape, Rc2Shape, RcPre, RcShape, InsShape, Pu2Shape, CarryShape]) | skip)))
 
-set_option maxHeartbeats 4000000 in
 theorem bT_wq0 (s s' : St) (p : Pid) : Inv s → Inv s' → Bnd s → s.tpc p = .wq0 → stepT s p = some s' → Bnd s' := by
   intro h h' hb hpc hs
   have hcfg := h.cfg
   have hview := thief_views s h p
-  have a6 := h'.tp2; have a7 := h'.tk3; have a8 := h'.vk3; have a9 := h.lockT; have a10 := h.lockO
-  have b1 := h.tk2 p; have b2 := h.vk2 p; have b3 := hb.pk2 p; have b4 := hb.pk3 p; have b5 := hb.tops; have b6 := hb.base0
+  have a6 := h'.tp2; have a7 := h'.tk3; have a8 := h'.vk3
+  have b1 := h.tk2 p; have b2 := h.vk2 p; have b3 := hb.pk2 p; have b4 := hb.pk3 p
   have hbufE := h.tbufE p
   have hvb : s.bufT p = [] → viewBase (s.bufT p) s.base = s.base ∧ viewTop (s.bufT p) s.top = s.top := by
     intro h0; rw [h0]; exact ⟨rfl, rfl⟩
@@ -84,20 +88,21 @@ theorem bT_wq0 (s s' : St) (p : Pid) : Inv s → Inv s' → Bnd s → s.tpc p = 
   all_goals (try split at hs)
   all_goals (try simp at hs)
   all_goals (try (first | (subst hs; exact hb) | subst hs))
-  all_goals (cases h; cases hb)
-  all_goals simp only [ownerLocked, carry, resetting, ownerFlight] at *
   all_goals (
+    tso_coreT h []
+    bnd_core hb
     constructor
-    all_goals (try simp only [ownerLocked, carry, resetting, ownerFlight, upd_apply, applySto])
-    all_goals (first | assumption | grind [thiefLocked, mayBuf, notTrans, thiefFlight, popWin, rcOff_bnd, Rc1Shape, Rc2Shape, RcPre, RcShape, InsShape, Pu2Shape, CarryShape] | (intro q; by_cases hqp : q = p <;> simp [hqp] <;> grind [thiefLocked, mayBuf, notTrans, thiefFlight, popWin, rcOff_bnd, Rc1Shape, Rc2Shape, RcPre, RcShape, InsShape, Pu2Shape, CarryShape]) | skip))
+    all_goals (bnd_pick hb; rename_i hold)
+    all_goals (first | exact hold | (
+      (try simp only [upd_apply, applySto] at hold ⊢)
+      first | assumption | (intros; contradiction) | (intro q; if hq : q = p then (subst hq; simp only [if_true]; intros; contradiction) else (simp only [if_neg hq]; exact hold q)) | grind [thiefLocked, mayBuf, notTrans, thiefFlight, popWin, rcOff_bnd, Rc1Shape, Rc2Shape, RcPre, RcShape, InsShape, Pu2Shape, CarryShape] | (intro q; by_cases hqp : q = p <;> simp [hqp] <;> grind [thiefLocked, mayBuf, notTrans, thiefFlight, popWin, rcOff_bnd, Rc1Shape, Rc2Shape, RcPre, RcShape, InsShape, Pu2Shape, CarryShape]) | skip)))
 
-set_option maxHeartbeats 4000000 in
 theorem bT_wq1 (s s' : St) (p : Pid) (t) : Inv s → Inv s' → Bnd s → s.tpc p = .wq1 t → stepT s p = some s' → Bnd s' := by
   intro h h' hb hpc hs
   have hcfg := h.cfg
   have hview := thief_views s h p
-  have a6 := h'.tp2; have a7 := h'.tk3; have a8 := h'.vk3; have a9 := h.lockT; have a10 := h.lockO
-  have b1 := h.tk2 p; have b2 := h.vk2 p; have b3 := hb.pk2 p; have b4 := hb.pk3 p; have b5 := hb.tops; have b6 := hb.base0
+  have a6 := h'.tp2; have a7 := h'.tk3; have a8 := h'.vk3
+  have b1 := h.tk2 p; have b2 := h.vk2 p; have b3 := hb.pk2 p; have b4 := hb.pk3 p
   have hbufE := h.tbufE p
   have hvb : s.bufT p = [] → viewBase (s.bufT p) s.base = s.base ∧ viewTop (s.bufT p) s.top = s.top := by
     intro h0; rw [h0]; exact ⟨rfl, rfl⟩
@@ -106,20 +111,21 @@ theorem bT_wq1 (s s' : St) (p : Pid) (t) : Inv s → Inv s' → Bnd s → s.tpc 
   all_goals (try split at hs)
   all_goals (try simp at hs)
   all_goals (try (first | (subst hs; exact hb) | subst hs))
-  all_goals (cases h; cases hb)
-  all_goals simp only [ownerLocked, carry, resetting, ownerFlight] at *
   all_goals (
+    tso_coreT h []
+    bnd_core hb
     constructor
-    all_goals (try simp only [ownerLocked, carry, resetting, ownerFlight, upd_apply, applySto])
-    all_goals (first | assumption | grind [thiefLocked, mayBuf, notTrans, thiefFlight, popWin, rcOff_bnd, Rc1Shape, Rc2Shape, RcPre, RcShape, InsShape, Pu2Shape, CarryShape] | (intro q; by_cases hqp : q = p <;> simp [hqp] <;> grind [thiefLocked, mayBuf, notTrans, thiefFlight, popWin, rcOff_bnd, Rc1Shape, Rc2Shape, RcPre, RcShape, InsShape, Pu2Shape, CarryShape]) | skip))
+    all_goals (bnd_pick hb; rename_i hold)
+    all_goals (first | exact hold | (
+      (try simp only [upd_apply, applySto] at hold ⊢)
+      first | assumption | (intros; contradiction) | (intro q; if hq : q = p then (subst hq; simp only [if_true]; intros; contradiction) else (simp only [if_neg hq]; exact hold q)) | grind [thiefLocked, mayBuf, notTrans, thiefFlight, popWin, rcOff_bnd, Rc1Shape, Rc2Shape, RcPre, RcShape, InsShape, Pu2Shape, CarryShape] | (intro q; by_cases hqp : q = p <;> simp [hqp] <;> grind [thiefLocked, mayBuf, notTrans, thiefFlight, popWin, rcOff_bnd, Rc1Shape, Rc2Shape, RcPre, RcShape, InsShape, Pu2Shape, CarryShape]) | skip)))
 
-set_option maxHeartbeats 4000000 in
 theorem bT_wtl (s s' : St) (p : Pid) : Inv s → Inv s' → Bnd s → s.tpc p = .wtl → stepT s p = some s' → Bnd s' := by
   intro h h' hb hpc hs
   have hcfg := h.cfg
   have hview := thief_views s h p
-  have a6 := h'.tp2; have a7 := h'.tk3; have a8 := h'.vk3; have a9 := h.lockT; have a10 := h.lockO
-  have b1 := h.tk2 p; have b2 := h.vk2 p; have b3 := hb.pk2 p; have b4 := hb.pk3 p; have b5 := hb.tops; have b6 := hb.base0
+  have a6 := h'.tp2; have a7 := h'.tk3; have a8 := h'.vk3
+  have b1 := h.tk2 p; have b2 := h.vk2 p; have b3 := hb.pk2 p; have b4 := hb.pk3 p
   have hbufE := h.tbufE p
   have hvb : s.bufT p = [] → viewBase (s.bufT p) s.base = s.base ∧ viewTop (s.bufT p) s.top = s.top := by
     intro h0; rw [h0]; exact ⟨rfl, rfl⟩
@@ -128,11 +134,13 @@ theorem bT_wtl (s s' : St) (p : Pid) : Inv s → Inv s' → Bnd s → s.tpc p = 
   all_goals (try split at hs)
   all_goals (try simp at hs)
   all_goals (try (first | (subst hs; exact hb) | subst hs))
-  all_goals (cases h; cases hb)
-  all_goals simp only [ownerLocked, carry, resetting, ownerFlight] at *
   all_goals (
+    tso_coreT h []
+    bnd_core hb
     constructor
-    all_goals (try simp only [ownerLocked, carry, resetting, ownerFlight, upd_apply, applySto])
-    all_goals (first | assumption | grind [thiefLocked, mayBuf, notTrans, thiefFlight, popWin, rcOff_bnd, Rc1Shape, Rc2Shape, RcPre, RcShape, InsShape, Pu2Shape, CarryShape] | (intro q; by_cases hqp : q = p <;> simp [hqp] <;> grind [thiefLocked, mayBuf, notTrans, thiefFlight, popWin, rcOff_bnd, Rc1Shape, Rc2Shape, RcPre, RcShape, InsShape, Pu2Shape, CarryShape]) | skip))
+    all_goals (bnd_pick hb; rename_i hold)
+    all_goals (first | exact hold | (
+      (try simp only [upd_apply, applySto] at hold ⊢)
+      first | assumption | (intros; contradiction) | (intro q; if hq : q = p then (subst hq; simp only [if_true]; intros; contradiction) else (simp only [if_neg hq]; exact hold q)) | grind [thiefLocked, mayBuf, notTrans, thiefFlight, popWin, rcOff_bnd, Rc1Shape, Rc2Shape, RcPre, RcShape, InsShape, Pu2Shape, CarryShape] | (intro q; by_cases hqp : q = p <;> simp [hqp] <;> grind [thiefLocked, mayBuf, notTrans, thiefFlight, popWin, rcOff_bnd, Rc1Shape, Rc2Shape, RcPre, RcShape, InsShape, Pu2Shape, CarryShape]) | skip)))
 
 end MythVerif.WsqTso
